@@ -15,4 +15,6 @@ class Check(PropertyCheck):
     def families(self, rng, tier):
         return [("formulas.compute_offer_amount", fam_swap.reverse_cases(rng.sub("reverse_cases"), tier)),
                 ("world.general", fam_world.general_histories(rng.sub("general_histories"), tier, n_hist={"quick": 5, "thorough": 50}[tier])), ("world.router", fam_world.router_histories(rng.sub("router_histories"), tier)),
-                ("world.deep_pool", fam_world.deep_pool_histories(rng.sub("deep_pool"), tier))]
+                ("world.deep_pool", fam_world.deep_pool_histories(rng.sub("deep_pool"), tier)),
+                ("world.commission", fam_world.commission_histories(rng.sub("commission_histories"), tier)),
+                ("world.reverse_top", fam_world.reverse_top_histories(rng.sub("reverse_top"), tier))]
